@@ -15,11 +15,13 @@ from harness.common.shrink import ddmin
 from harness.props import c17_cases as G
 from harness.props import c17_facts
 from harness.props import c17_facts_ext
+from harness.props import c17_facts_py
 from harness.props import c17_ext as X
+from harness.props import c17_py as Y
 from harness.props import c17_util as U
 
 PROP = "C17"
-DRIVER_MODULES = ["PsutilModel.Model.C17Gen", "PsutilModel.Spec.C17", "PsutilModel.Spec.C17Ext"]
+DRIVER_MODULES = ["PsutilModel.Model.C17Gen", "PsutilModel.Spec.C17", "PsutilModel.Spec.C17Ext", "PsutilModel.Spec.C17Py"]
 NEEDS_EXT = True
 TRUSTED = [
     "C17 is PARTIAL: the theorems are about a Lean model of the decoders (struct utmp layout, C-string reads, the Python filters) and of the bounds arithmetic (PSUTIL_STRNCPY, MAC formatting, affinity loop, CPU_SET, pid range, ioprio packing); memory safety of the COMPILED code is supported by differential testing of the real extension in sub-processes, in the thorough tier under clang AddressSanitizer + UBSan — testing, not proof",
@@ -44,6 +46,7 @@ MANIFEST = {
 def facts(snap, F):
     c17_facts.facts(snap, F)
     c17_facts_ext.facts(snap, F, c17_facts.c_source, c17_facts.c_function, c17_facts.LINUX_C)
+    c17_facts_py.facts(snap, F, c17_facts.c_source, c17_facts.c_function)
 
 
 # ====================================================================== entry-point formats (harness-level, from the C source)
@@ -517,6 +520,16 @@ def one_build(ctx, res, run, fmts, first):
     for _ in range(ctx.n(120, 1200)):
         e = X.gen_mnt_entry(rng)
         todo.append(("mntrt", e, add({"op": "mntrt", "mnt": [b.hex() for b in e]})))
+    # ---------------------------------------------------------------- round 2: the Python-side wrappers on the real code path
+    for i in range(ctx.n(240, 2400)):
+        c = Y.gen_rootfs_case(rng, Y.ROOT_FAMILIES[i % len(Y.ROOT_FAMILIES)])
+        todo.append(("rootfs", c, add(Y.rootfs_line(c))))
+    for _ in range(ctx.n(200, 2000)):
+        c = Y.gen_netifstats_case(rng)
+        todo.append(("netifstats", c, add({"op": "netifstats", "nics": c["nics"]})))
+    for i in range(ctx.n(140, 1400)):
+        c = X.gen_ifaddrs_case(rng, X.IF_FAMILIES[i % len(X.IF_FAMILIES)])
+        todo.append(("netifaddrs_front", c, add(Y.netifaddrs_line(c))))
     # ---------------------------------------------------------------- argument fuzzer
     eps = run.ask({"cmd": "entrypoints"}, {"kind": "entrypoints"}) or {}
     names = [(m, f) for m in ("linux", "posix") for f in eps.get(m, [])]
@@ -567,6 +580,12 @@ def one_build(ctx, res, run, fmts, first):
             X.compare_getprio(run, payload, outs[idx])
         elif kind == "mntrt":
             compare_mntrt(run, payload, outs[idx])
+        elif kind == "rootfs":
+            Y.compare_rootfs(run, payload, outs[idx])
+        elif kind == "netifstats":
+            Y.compare_netifstats(run, payload, outs[idx])
+        elif kind == "netifaddrs_front":
+            Y.compare_netifaddrs_front(run, payload, outs[idx])
         elif kind == "call":
             compare_call(run, payload, predict_parse(fmts.get((payload["mod"], payload["fn"]), "*"), payload["args"]), outs[idx])
         elif kind == "call_fuzz":
@@ -816,6 +835,19 @@ def _replay_case(ctx, res, inp):
                     X.compare_getprio(run, inp["case"], drv.batch([X.getprio_line(inp["case"])])[0])
                 elif k == "mntrt":
                     compare_mntrt(run, [bytes.fromhex(x) for x in inp["mnt"]], drv.batch([{"op": "mntrt", "mnt": inp["mnt"]}])[0])
+                elif k == "rootfs":
+                    ln = inp["line"]
+                    c = {"family": inp.get("family", "replay"), "major": ln["major"], "minor": ln["minor"],
+                         "partitions": None if ln["partitions"] is None else bytes.fromhex(ln["partitions"]),
+                         "uevents": [(a, b, bytes.fromhex(t)) for a, b, t in ln["uevents"]],
+                         "classdevs": [(bytes.fromhex(n), None if t is None else bytes.fromhex(t)) for n, t in ln["classdevs"]],
+                         "exists": [bytes.fromhex(x) for x in ln["exists"]],
+                         "devs": None if ln["devs"] is None else [(a, b, cc, bytes.fromhex(n)) for a, b, cc, n in ln["devs"]]}
+                    Y.compare_rootfs(run, c, drv.batch([Y.rootfs_line(c)])[0])
+                elif k == "netifstats":
+                    Y.compare_netifstats(run, inp["case"], drv.batch([{"op": "netifstats", "nics": inp["case"]["nics"]}])[0])
+                elif k == "netifaddrs_front":
+                    Y.replay_netifaddrs_front(run, drv, inp)
                 else:
                     return None
             finally:
